@@ -57,6 +57,8 @@ theorem live_establish (k : Kernel) (o : List Fd) (fd : Fd) (l r : Ep) (s : Sock
       (fun _ _ _ rd hs => ⟨rd, hs, fun y hy => Or.inl hy⟩)
   have ht1 : TInv (k.tbl.modify fd f1) := tinv_modify _ _ _ (fun _ => rfl) (fun _ => rfl) h.tinv
   have hc1 : CInv (k.tbl.modify fd f1) := cinv_modify _ _ _ (fun _ => rfl) (fun _ => rfl) (fun _ => rfl) h.cinv
+  have hr1 : RInv (k.tbl.modify fd f1) :=
+    rinv_modify_keep _ fd f1 (fun _ => rfl) (fun s hs => by cases hh : s.tcb <;> simp_all [f1]) (fun _ => rfl) h.rinv
   have hnl : s.listen = none := by
     cases hl : s.listen with
     | none => rfl
@@ -69,7 +71,7 @@ theorem live_establish (k : Kernel) (o : List Fd) (fd : Fd) (l r : Ep) (s : Sock
     | some lfd => { k.modTcb fd g with tbl := (k.tbl.modify fd f1).modify lfd (fun s => { s with listen := s.listen.map (· ++ [fd]) }) }) o
   cases hfl : findListener (k.tbl.modify fd f1) l with
   | none =>
-    refine live_step (k' := k.modTcb fd g) h h.fix ht1 hc1 e1 ?_
+    refine live_step (k' := k.modTcb fd g) h h.fix ht1 hc1 hr1 e1 ?_
     intro s' hs'
     have hs'' : s' ∈ k.tbl.socks.map (modFn fd f1) := hs'
     rw [List.mem_map] at hs''
@@ -123,9 +125,31 @@ theorem live_establish (k : Kernel) (o : List Fd) (fd : Fd) (l r : Ep) (s : Sock
       have : modFn lfd f2 (modFn fd f1 l0) ∈ ((k.tbl.modify fd f1).modify lfd f2).socks :=
         List.mem_map_of_mem (List.mem_map_of_mem hl0)
       rwa [modFn_ne fd f1 l0 hl0ne, modFn_eq lfd f2 l0 hl0fd] at this
+    have hr2 : RInv ((k.tbl.modify fd f1).modify lfd f2) := by
+      refine rinv_modify _ lfd f2 (fun _ => rfl) (fun _ hs => hs) ?_ hr1
+      intro sl hsl _ rd' hrd' y hy
+      cases hsll : sl.listen with
+      | none => simp [f2, hsll] at hrd'
+      | some rd =>
+        have hrd'' : rd ++ [fd] = rd' := by simpa [f2, hsll] using hrd'
+        rw [← hrd''] at hy
+        rcases List.mem_append.mp hy with hy | hy
+        · exact hr1 sl hsl rd hsll y hy
+        · simp only [List.mem_singleton] at hy
+          subst hy
+          refine ⟨by rw [← hsfd]; exact h.tinv.fresh s hsmem, ?_⟩
+          intro s2' hs2' hfd2
+          have hs2'' : s2' ∈ k.tbl.socks.map (modFn y f1) := hs2'
+          rw [List.mem_map] at hs2''
+          obtain ⟨x, hx, rfl⟩ := hs2''
+          rw [modFn_fd y f1 (fun _ => rfl)] at hfd2
+          have hxs : x = s := get_unique k.tbl h.tinv y s hget x hx hfd2
+          subst hxs
+          rw [modFn_eq y f1 x hfd2]
+          simp [f1, htc]
     refine live_step (k' := { k.modTcb fd g with tbl := (k.tbl.modify fd f1).modify lfd f2 }) h h.fix
       (tinv_modify _ _ _ (fun _ => rfl) (fun _ => rfl) ht1)
-      (cinv_modify _ _ _ (fun _ => rfl) (fun _ => rfl) (fun _ => rfl) hc1) e12 ?_
+      (cinv_modify _ _ _ (fun _ => rfl) (fun _ => rfl) (fun _ => rfl) hc1) hr2 e12 ?_
     intro s'' hs''
     have hm : s'' ∈ (k.tbl.socks.map (modFn fd f1)).map (modFn lfd f2) := hs''
     rw [List.mem_map] at hm
